@@ -87,7 +87,7 @@ class SpartanProtocol(BaseGopherProtocol):
             url = url or "/"  # Use "/" for relative links to the root URL
         else:
             # Link to a different server.  Make it a gopher URL.
-            url = entry.geturl(self.server.server_name, 70)
+            url = entry.geturl(self.server.server_name, self.server.server_port)
 
         description = entry.getname() or ""
 
